@@ -27,6 +27,7 @@ type Engine struct {
 	sorts     *Sorts
 	keySorts  map[string]string
 	keyIsRef  map[string]bool
+	lockUserSet map[string]bool
 	fnIDs     map[string]int
 	fnByKey   map[string]*ssa.Function
 	errorType *types.Interface
@@ -336,6 +337,7 @@ func (e *Engine) verifyUnit(key string) *Unit {
 	f.top = f
 	f.epochConsts = map[string]Term{}
 	f.epochAlloc = map[int]Term{}
+	f.arrBound = map[string]Term{}
 	f.counters = map[string]int{}
 	f.assumptions = map[string]bool{}
 	f.srcLines = map[string][]string{}
@@ -433,6 +435,14 @@ func (e *Engine) runUnit(f *fx, c *Contract) {
 			sc.assert(f.specBool(rq, f.topEnv))
 		}
 	}
+	if _, ok := e.specs.Ghosts["Held"]; ok {
+		// lock discipline: every function is entered with no jet lock held by the calling goroutine
+		// (checked at call sites: see noLockAcrossCall)
+		f.regKey("X:Held", arraySort("Int", "Int"))
+		h := f.get(entry, "X:Held")
+		sc.assert(T("Bool", "(forall ((m Int)) (! (= (select %s m) 0) :pattern ((select %s m))))", h.S, h.S))
+		f.note("every function is entered with no lock of this package held by the calling goroutine (obligation at every call made while a lock is held)")
+	}
 	f.cover("cover:entry")
 	f.run(f.cloneState(entry), tTrue)
 	// normal exits
@@ -466,6 +476,10 @@ func (e *Engine) runUnit(f *fx, c *Contract) {
 		for k, en := range c.Ensures {
 			g := f.specBool(en, env)
 			f.oblige("ensures", fmt.Sprintf("ensures%s@ret#%d", clauseName(en, k), i), g, en.Props, en.Where+" / "+where, en.Src)
+		}
+		for k, en := range c.Checks {
+			g := f.specBool(en, env)
+			f.oblige("ensures", fmt.Sprintf("check%s@ret#%d", clauseName(en, k), i), g, en.Props, en.Where+" / "+where, en.Src)
 		}
 	}
 	// exceptional exits
